@@ -1,9 +1,12 @@
+import VelaVerif.Gen.Config
 import VelaVerif.Model.ConfigTypes
 /-!
 # C18 — the documented rules of configuration resolution (OPTIONS.md), written independently of the code
 
 Only the shared vocabulary (`Model/ConfigTypes.lean`: enums, `Arch`, `int()`, `float()`, `normpath`,
-`ConfigParser.read` merge) is imported; nothing of `Model/Config.lean`.
+`ConfigParser.read` merge) is imported; nothing of `Model/Config.lean`.  What OPTIONS.md states by *name*
+is taken from the live document and the example file it points to (`Gen/Config.lean`, regenerated every run):
+the default accelerator, and the sections of `config_files/Arm/vela.ini` that `internal-default` "maps to".
 
 Rules and where OPTIONS.md states them
 
@@ -12,8 +15,8 @@ Rules and where OPTIONS.md states them
   extension and be readable; the option may be repeated and all files are searched.
 * R2 "System Config" / "Memory Mode": `--system-config N` selects `[System_Config.N]`,
   `--memory-mode N` selects `[Memory_Mode.N]`; without the option the `internal-default` values are
-  used: Ethos-U65 → Client-Server + Dedicated SRAM, Ethos-U55 → High-End Embedded + Shared SRAM
-  (`docInternalSys`, `docInternalMem`: the values of those sections of the example `vela.ini`).
+  used, which "map to" named sections of the example `vela.ini` (today: Ethos-U65 → Client-Server +
+  Dedicated SRAM, Ethos-U55 → High-End Embedded + Shared SRAM): `docInternalSys`, `docInternalMem`.
 * R3 "All options are optional.  If they are not specified, then they will be assigned a value of 1
   (or the equivalent)": clock 1, first enum member for ports (Sram) and areas (Axi0), scale 1, burst 1,
   latency 0; "Arena Cache Size": if neither CLI nor file give a size, the maximum address is used.
@@ -108,29 +111,13 @@ def docRow (ch : List Section) (a : MemArea) : Verdict Row := do
   let wl ← docInt64 (nearest (a.key ++ "_write_latency") ch) 0
   pure ⟨sc, bl, rl, wl⟩
 
-/-! ## R2 the internal defaults (values of the sections OPTIONS.md names, from the example vela.ini) -/
-
-/-- (core clock, axi0, axi1, table) -/
-def docInternalSys (isU65 : Bool) : Dy × MemArea × MemArea × Tab :=
-  if isU65 then
-    -- Ethos_U65_Client_Server: 1 GHz, Sram 1.0/32/32/32, Dram 0.75/128/500/250
-    (⟨false, 1953125, 9⟩, .sram, .dram,
-      { Tab.init with sram := ⟨Dy.one, 32, 32, 32⟩, dram := ⟨⟨false, 3, -2⟩, 128, 500, 250⟩ })
-  else
-    -- Ethos_U55_High_End_Embedded: 500 MHz, Sram 1.0/32/32/32, OffChipFlash 0.125/128/64/64
-    (⟨false, 1953125, 8⟩, .sram, .offChipFlash,
-      { Tab.init with sram := ⟨Dy.one, 32, 32, 32⟩, offChipFlash := ⟨⟨false, 1, -3⟩, 128, 64, 64⟩ })
-
-/-- (const, arena, cache, size): Dedicated_Sram (393216 bytes) / Shared_Sram (no size: maximum address) -/
-def docInternalMem (isU65 : Bool) (maxAddr : Nat) : MemPort × MemPort × MemPort × Int :=
-  if isU65 then (.axi1, .axi1, .axi0, 393216) else (.axi1, .axi0, .axi0, maxAddr)
-
 def internalDefault : String := "internal-default"
 
 /-! ## R2–R6 one compilation's parameters -/
 
 def fuelFor (ini : Ini) : Nat := ini.length + 1
 
+/-- `some chain` when a file defines the section, `none` for the internal defaults -/
 def selectSection (ini : Option Ini) (part name : String) : Verdict (Option (List Section)) :=
   match ini with
   | some f =>
@@ -142,29 +129,51 @@ def selectSection (ini : Option Ini) (part name : String) : Verdict (Option (Lis
     else .reject
   | none => if name == internalDefault then .accept none else .reject
 
+def sysFromChain (ch : List Section) : Verdict (Dy × MemArea × MemArea × Tab) := do
+  let cc ← optVal (nearest "core_clock" ch) Dy.one parseFloat
+  let a0 ← docPort (nearest "axi0_port" ch)
+  let a1 ← docPort (nearest "axi1_port" ch)
+  let r0 ← docRow ch a0
+  let r1 ← docRow ch a1
+  pure (cc, a0, a1, (Tab.init.set a0 r0).set a1 r1)
+
+def memFromChain (ch : List Section) (maxAddr : Nat) : Verdict (MemPort × MemPort × MemPort × Int) := do
+  let c ← docMemPort (nearest "const_mem_area" ch)
+  let a ← docMemPort (nearest "arena_mem_area" ch)
+  let k ← docMemPort (nearest "cache_mem_area" ch)
+  let sz ← optVal (nearest "arena_cache_size" ch) (maxAddr : Int) parseInt
+  pure (c, a, k, sz)
+
+/-- R2: "`internal-default` … maps to the following configs from the example `vela.ini` file":
+    the section OPTIONS.md names for the accelerator family, resolved in the bundled example file -/
+def exampleChain (sec? : Option String) : Verdict (List Section) :=
+  match sec? with
+  | none => .reject
+  | some sec =>
+    match chain Gen.Cfg.bundledArmIni (fuelFor Gen.Cfg.bundledArmIni) sec with
+    | some ch => .accept ch
+    | none => .reject
+
+def docInternalSys (isU65 : Bool) : Verdict (Dy × MemArea × MemArea × Tab) := do
+  let ch ← exampleChain (if isU65 then Gen.Cfg.docSysU65 else Gen.Cfg.docSysU55)
+  sysFromChain ch
+
+def docInternalMem (isU65 : Bool) (maxAddr : Nat) : Verdict (MemPort × MemPort × MemPort × Int) := do
+  let ch ← exampleChain (if isU65 then Gen.Cfg.docMemU65 else Gen.Cfg.docMemU55)
+  memFromChain ch maxAddr
+
 def docSysConfig (ini : Option Ini) (isU65 : Bool) (sys : String) : Verdict (Dy × MemArea × MemArea × Tab) := do
   let sel ← selectSection ini "System_Config." sys
   match sel with
-  | none => pure (docInternalSys isU65)
-  | some ch =>
-    let cc ← optVal (nearest "core_clock" ch) Dy.one parseFloat
-    let a0 ← docPort (nearest "axi0_port" ch)
-    let a1 ← docPort (nearest "axi1_port" ch)
-    let r0 ← docRow ch a0
-    let r1 ← docRow ch a1
-    pure (cc, a0, a1, (Tab.init.set a0 r0).set a1 r1)
+  | none => docInternalSys isU65
+  | some ch => sysFromChain ch
 
 def docMemMode (ini : Option Ini) (isU65 : Bool) (maxAddr : Nat) (mem : String) :
     Verdict (MemPort × MemPort × MemPort × Int) := do
   let sel ← selectSection ini "Memory_Mode." mem
   match sel with
-  | none => pure (docInternalMem isU65 maxAddr)
-  | some ch =>
-    let c ← docMemPort (nearest "const_mem_area" ch)
-    let a ← docMemPort (nearest "arena_mem_area" ch)
-    let k ← docMemPort (nearest "cache_mem_area" ch)
-    let sz ← optVal (nearest "arena_cache_size" ch) (maxAddr : Int) parseInt
-    pure (c, a, k, sz)
+  | none => docInternalMem isU65 maxAddr
+  | some ch => memFromChain ch maxAddr
 
 def otherPort : MemPort → MemPort
   | .axi0 => .axi1
@@ -204,6 +213,9 @@ def docAccelerators : List (String × Bool) :=
     ("ethos-u65-256", true), ("ethos-u65-512", true) ]
 
 def docMaxAddr (isU65 : Bool) : Nat := if isU65 then 2 ^ 40 else 2 ^ 32
+
+/-- OPTIONS.md "Accelerator Configuration", **Default** (read from the live document) -/
+def docDefaultAccelerator : String := Gen.Cfg.docAcceleratorDefault.getD ""
 
 /-! ## R1 files -/
 
@@ -251,7 +263,7 @@ def specMain (env : Env) (a : MainArgs) : Verdict Arch :=
   match cli? with
   | none => .reject
   | some cli =>
-    match docAccelerators.lookup (a.accelerator.getD "ethos-u65-256") with
+    match docAccelerators.lookup (a.accelerator.getD docDefaultAccelerator) with
     | none => .reject
     | some isU65 =>
       let located := a.configs.map (locate env)
